@@ -32,7 +32,8 @@ _VL.declare("nil")
 _VL.declare("cons", ("hd", _Val), ("tl", _VL))
 Val, VL = z3.CreateDatatypes(_Val, _VL)
 
-SORTS = {"int": Int, "bool": Bool, "bytes": Bytes, "str": Bytes, "val": Val, "vl": VL, "f64": F64}
+Real = z3.RealSort()
+SORTS = {"real": Real, "int": Int, "bool": Bool, "bytes": Bytes, "str": Bytes, "val": Val, "vl": VL, "f64": F64}
 
 # ---------------------------------------------------------------------------------------------
 # type ids: typeof(v) for a Val.  Exact plain types get fixed small ids; every other class
@@ -123,6 +124,11 @@ class SF64(Sym):
     kind = "f64"
 
 
+class SReal(Sym):
+    """a point in time / a duration: floats used for time are treated as mathematical reals (stated assumption)"""
+    kind = "real"
+
+
 class SVal(Sym):
     kind = "val"
 
@@ -132,7 +138,7 @@ class SVL(Sym):
     kind = "vl"
 
 
-WRAP = {"int": SInt, "bool": SBool, "bytes": SBytes, "str": SStr, "val": SVal, "vl": SVL, "f64": SF64}
+WRAP = {"real": SReal, "int": SInt, "bool": SBool, "bytes": SBytes, "str": SStr, "val": SVal, "vl": SVL, "f64": SF64}
 
 
 def wrap_sort(z):
@@ -149,6 +155,8 @@ def wrap_sort(z):
         return SF64(z)
     if s == Bytes:
         return SBytes(z)
+    if s == Real:
+        return SReal(z)
     raise TypeError("no wrapper for sort %s" % s)
 
 
